@@ -26,7 +26,7 @@ CONFIG = {
     "trusted": ["harness/c04r.cpp dump_lib and ocaml/c04r_driver.ml dump: canonical text, circle recognition (a polygon of n >= 5 "
                 "vertices on the circle ellipse() samples is printed as circle cx cy r), double conversion of reals",
                 "harness/oas_scan.hpp (CBLOCK splicing, record offsets for the malformed cases), harness/oas_encoder.hpp"],
-    "assumptions": ["coordinates below 2^50 grid steps and a unit real giving 1e-15 < precision < 1e3 (beyond that both sides print "
+    "assumptions": ["coordinates below 2^40 grid steps and a unit real giving 1e-15 < precision < 1e3 (beyond that both sides print "
                     "bigcoord / badunit)", "an allocation of 2^36 bytes or more fails; where the model says hang (2^26 iterations of failing reads, 2^32 bytes of table fillers) the result depends on the machine and any implementation result is accepted",
                     "CBLOCK (record 34) is outside the model: such cases are not compared"],
     "thorough_seeds": 1,
@@ -66,6 +66,8 @@ def same(kind, impl, model):
         return True
     if guard is not None:  # an S line of an uncovered stream: the strict decoder's layout, compared exactly
         return False
+    if m == "badunit":     # the unit real leaves the range in which coordinates are grid integers: read_oas computes with
+        return _abnormal(i)  # infinities / NaN (e.g. ellipse() with tolerance 0), which may also crash or hang
     if m == "cblock":      # record 34 reached: outside the model
         return True
     if m == "crash":       # the C++ has undefined behaviour on this stream: any result is allowed
